@@ -822,3 +822,367 @@ Proof.
   exists v, s. split; [exact Hs|]. split; [symmetry; exact Hrule|].
   intros segs Hsegs. destruct (Hspec segs Hsegs) as [<- <-]. rewrite <- Hslash. exact Eex.
 Qed.
+
+(* ------------------------------------------------------------------ the converse: stored position => documented match *)
+
+Lemma sdrop_app s p : sdrop (slen s) (s ++ p) = p.
+Proof. induction s as [|c s IH]; simpl; [destruct p; reflexivity | exact IH]. Qed.
+
+Lemma stake_app s p : stake (slen s) (s ++ p) = s.
+Proof. induction s as [|c s IH]; simpl; [destruct p; reflexivity | unfold slen in *; simpl; rewrite IH; reflexivity]. Qed.
+
+Lemma next_sep_app_noslash s p : no_slash s -> next_sep (s ++ p) = slen s + next_sep p.
+Proof.
+  unfold no_slash. induction s as [|c s IH]; intro H; [reflexivity|].
+  rewrite next_sep_cons, slen_cons in H. simpl String.append. rewrite next_sep_cons, slen_cons.
+  destruct (Ascii.eqb slash c); [lia|]. rewrite IH; lia.
+Qed.
+
+Lemma noslash_is_seg1 s path :
+  prefix s path = true -> no_slash s ->
+  (sdrop (slen s) path = "" \/ exists r, sdrop (slen s) path = String slash r) ->
+  s = seg1 path /\ slen s = next_sep path.
+Proof.
+  intros Hp Hs Hrest. apply prefix_split in Hp as (p' & ->). rewrite sdrop_app in Hrest.
+  assert (Hn : next_sep (s ++ p') = slen s).
+  { rewrite (next_sep_app_noslash _ _ Hs). destruct Hrest as [->|(r & ->)].
+    - unfold next_sep. simpl. unfold slen. simpl. lia.
+    - rewrite next_sep_cons, Ascii.eqb_refl. lia. }
+  split; [|symmetry; exact Hn]. unfold seg1. rewrite Hn, stake_app. reflexivity.
+Qed.
+
+Lemma no_slash_cons c s : no_slash (String c s) -> Ascii.eqb slash c = false /\ no_slash s.
+Proof.
+  unfold no_slash. rewrite next_sep_cons, slen_cons. destruct (Ascii.eqb slash c); [lia|]. split; [reflexivity | lia].
+Qed.
+
+Lemma token_lit_noslash seg s : token_of seg = Lit s -> no_slash seg -> no_slash s.
+Proof.
+  destruct seg as [|c s']; [simpl; intro H; inversion H; auto|].
+  rewrite token_of_cons. intros H Hn. destruct (no_slash_cons _ _ Hn) as [_ Hn'].
+  destruct (Ascii.eqb c ":"); [discriminate|]. destruct (Ascii.eqb c "*"); [discriminate|].
+  destruct (Ascii.eqb c "\").
+  - destruct s' as [|c2 r]; [inversion H; subst; exact Hn|].
+    destruct (is_special c2); inversion H; subst; assumption.
+  - inversion H; subst. exact Hn.
+Qed.
+
+Lemma valid_rest e : valid_expr e -> has_more e = true ->
+  (forall n, token_of (seg1 e) <> Free n) -> valid_expr (rest_of e).
+Proof.
+  intros Hv Hm Hnf n Hin. apply Hv. unfold valid_expr, valid_from in *. rewrite epos_seg.
+  unfold etail. rewrite Hm. destruct (token_of (seg1 e)) as [s|w|f].
+  - apply in_or_app. right. right. exact Hin.
+  - right. right. exact Hin.
+  - exfalso. exact (Hnf f eq_refl).
+Qed.
+
+Lemma valid_free e n : valid_expr e -> token_of (seg1 e) = Free n -> has_more e = false.
+Proof.
+  intros Hv Ht. assert (Hs := token_free_inv _ _ Ht).
+  destruct e as [|c r]; [reflexivity|].
+  assert (Hc : c = "*"%char).
+  { unfold seg1 in Hs. rewrite next_sep_cons in Hs. destruct (Ascii.eqb slash c); [discriminate|].
+    cbn [stake] in Hs. inversion Hs. reflexivity. }
+  subst c. assert (Hn : no_slash r).
+  { apply Hv. unfold valid_from. rewrite fposm_seg. change (Ascii.eqb "*" "*") with true. left. reflexivity. }
+  unfold has_more. rewrite next_sep_cons, slen_cons. change (Ascii.eqb slash "*") with false.
+  unfold no_slash in Hn. rewrite Hn. apply Nat.ltb_irrefl.
+Qed.
+
+(** a valid expression whose stored position matches the path byte by byte matches it segment
+    by segment, with the same values *)
+Lemma pos_to_expr : forall e path vals,
+  valid_expr e -> fmatch (erase (epos e)) path = Some vals ->
+  expr_match (parse_expr e) (split_slash path) = Some vals.
+Proof.
+  intro e. remember (slen e) as n eqn:Hn. revert e Hn.
+  induction n as [n IH] using lt_wf_ind. intros e Hn path vals Hvalid.
+  assert (Htail : (forall f, token_of (seg1 e) <> Free f) -> forall p' vs,
+    (p' = "" -> has_more path = false) ->
+    (forall r, p' = String slash r -> has_more path = true /\ r = rest_of path) ->
+    fmatch (erase (etail e)) p' = Some vs ->
+    expr_match (if has_more e then parse_expr (rest_of e) else [])
+               (if has_more path then split_slash (rest_of path) else []) = Some vs).
+  { intros Hnf p' vs Hp0 Hp1 Hm. unfold etail in Hm. destruct (has_more e) eqn:He.
+    - cbn [erase map erase1 fmatch] in Hm. destruct p' as [|d p'']; [discriminate|].
+      destruct (Ascii.eqb slash d) eqn:Ed; [|discriminate]. apply Ascii.eqb_eq in Ed. subst d.
+      destruct (Hp1 p'' eq_refl) as [Hp ->]. rewrite Hp.
+      assert (Hr := rest_shorter e He).
+      apply (IH (slen (rest_of e)) ltac:(lia) (rest_of e) eq_refl); [apply valid_rest; assumption | exact Hm].
+    - simpl in Hm. destruct (String.eqb p' "") eqn:Ep; [|discriminate]. apply String.eqb_eq in Ep.
+      inversion Hm; subst vs. rewrite (Hp0 Ep). reflexivity. }
+  unfold epos. rewrite epos_seg, parse_expr_eq, (split_slash_eq path).
+  assert (Hrest : forall k, k = next_sep path ->
+            (sdrop k path = "" -> has_more path = false) /\
+            (forall r, sdrop k path = String slash r -> has_more path = true /\ r = rest_of path)).
+  { intros k ->. rewrite sdrop_next_sep. destruct (has_more path); split; try discriminate; auto.
+    intros r H. inversion H. auto. }
+  destruct (token_of (seg1 e)) as [s|nm|nm] eqn:Et.
+  - (* literal segment *)
+    rewrite erase_app, erase_ecs, fmatch_fcs. destruct (prefix s path) eqn:Hpre; [|discriminate].
+    intro Hm.
+    assert (Hns : no_slash s) by (apply (token_lit_noslash _ _ Et); apply seg1_no_slash).
+    assert (Hshape : sdrop (slen s) path = "" \/ exists r, sdrop (slen s) path = String slash r).
+    { unfold etail in Hm. destruct (has_more e).
+      - cbn [erase map erase1 fmatch] in Hm. destruct (sdrop (slen s) path) as [|d p'']; [discriminate|].
+        destruct (Ascii.eqb slash d) eqn:Ed; [|discriminate]. apply Ascii.eqb_eq in Ed. subst d. right. eauto.
+      - simpl in Hm. destruct (String.eqb (sdrop (slen s) path) "") eqn:Ep; [|discriminate].
+        apply String.eqb_eq in Ep. auto. }
+    destruct (noslash_is_seg1 _ _ Hpre Hns Hshape) as [Hs1 Hl].
+    rewrite em_lit, <- Hs1, String.eqb_refl.
+    destruct (Hrest (slen s) Hl) as [R0 R1].
+    apply (Htail ltac:(intros f; discriminate) (sdrop (slen s) path) vals R0 R1 Hm).
+  - (* single wildcard *)
+    cbn [erase map erase1 fmatch]. fold (erase (etail e)).
+    destruct (Nat.eqb (next_sep path) 0) eqn:Ek; [discriminate|].
+    destruct (fmatch (erase (etail e)) (sdrop (next_sep path) path)) as [vs|] eqn:Hm; [|discriminate].
+    intro H. inversion H; subst vals. clear H.
+    rewrite em_wild, seg1_empty, Ek.
+    destruct (Hrest (next_sep path) eq_refl) as [R0 R1].
+    rewrite (Htail ltac:(intros f; discriminate) _ vs R0 R1 Hm). reflexivity.
+  - (* free wildcard: valid, so it is the last segment *)
+    rewrite (valid_free e nm Hvalid Et). cbn [erase map erase1 fmatch].
+    destruct (String.eqb path "") eqn:Ep; [discriminate|]. intro H. inversion H; subst vals.
+    rewrite em_free_last.
+    assert (Hj : join_slash (seg1 path :: (if has_more path then split_slash (rest_of path) else [])) = path).
+    { rewrite <- (split_slash_eq path). apply join_split. }
+    rewrite Hj, Ep. reflexivity.
+Qed.
+
+(* ------------------------------------------------------------------ unconditional forms *)
+
+Lemma Forall_nth {A} (P : A -> Prop) l i a : Forall P l -> nth_error l i = Some a -> P a.
+Proof. intros H E. rewrite Forall_forall in H. apply H. eapply nth_error_In. exact E. Qed.
+
+(** a node reached by a lookup belongs to a route whose expression matches the request path as
+    documented, with exactly the values walked, and carries that route's declared names *)
+Lemma node_entry_strong fx4 ds es t q pi node vals v :
+  load true fx4 ds = Loaded es t ->
+  at_pos t pi node -> In v (t_values node) -> pos_match pi (lookup_path q) = Some vals ->
+  exists e s, nth_error es v = Some e /\ nth_error (flat_routes 0 ds) v = Some s /\ entry_of fx4 e s /\
+    sr_segs s q = Some vals /\ t_keys node = declared_names (sr_tokens s) /\ length (t_keys node) = length vals.
+Proof.
+  intros Hload Hat Hv Hm.
+  destruct (node_entry fx4 ds es t q pi node vals v Hload Hat Hv Hm) as (e & s & He & Hs & Hent & Hlen & Hspec).
+  assert (Hsegs : sr_segs s q = Some vals).
+  { destruct (loaded_inv _ _ _ _ Hload) as [_ Hinv].
+    destruct (at_pos_entry es t pi node Hat [] v Hinv Hv) as (e' & He' & Hpos & _).
+    rewrite He in He'. inversion He'; subst e'. clear He'.
+    assert (Hvalid := Forall_nth _ _ _ _ (loaded_valid _ _ _ _ Hload) He).
+    destruct Hent as (cr & _ & _ & _ & Hpath & _ & _).
+    unfold sr_segs, sr_tokens. rewrite <- Hpath. apply pos_to_expr; [exact Hvalid|].
+    rewrite pos_match_flat in Hm. simpl in Hpos. rewrite Hpos. exact Hm. }
+  exists e, s. repeat split; try assumption. destruct (Hspec vals Hsegs) as [Hk _]. exact Hk.
+Qed.
+
+(** every matcher call of a lookup is made for a route whose expression matches the request path
+    (as documented), with the names that route declares and the segments its wildcards match *)
+Theorem matcher_sees_route_keys_strong : forall fx1 fx4 fx6 fx7 eng ds es t q,
+  load true fx4 ds = Loaded es t ->
+  forall k, In k (snd (serve fx1 true true fx6 fx7 eng es t q)) ->
+  exists s, nth_error (flat_routes 0 ds) (k_vid k) = Some s /\
+    sr_segs s q = Some (k_vals k) /\ k_keys k = declared_names (sr_tokens s).
+Proof.
+  intros fx1 fx4 fx6 fx7 eng ds es t q Hload k Hk. rewrite serve_calls in Hk.
+  destruct (find_node_good (matcher_of fx1 fx6 fx7 eng es q) t (lookup_path q) []) as [Hcalls _].
+  destruct (Hcalls k Hk) as (pi & node & vals & Hat & Hv & Hm & Hkeys & Hvals).
+  destruct (node_entry_strong fx4 ds es t q pi node vals (k_vid k) Hload Hat Hv Hm)
+    as (e & s & _ & Hs & _ & Hsegs & Hnames & _).
+  exists s. simpl in Hvals. rewrite Hvals, Hkeys. auto.
+Qed.
+
+Lemma try_values_found_call m keys caps vs v :
+  fst (try_values m keys caps vs) = Some (Some v) ->
+  exists k, In k (snd (try_values m keys caps vs)) /\ k_vid k = v /\ k_res k = MYes.
+Proof.
+  induction vs as [|x r IH]; simpl; [discriminate|].
+  destruct (m x keys caps) eqn:E.
+  - simpl. intro H. inversion H; subst. eexists. split; [left; reflexivity|]. simpl. auto.
+  - destruct (try_values m keys caps r) as [y cs]. simpl in *. intro H.
+    destruct (IH H) as (k & Hk & Hr). exists k. auto.
+  - discriminate.
+Qed.
+
+(** the entry found was asked, and its matcher said yes *)
+Lemma find_node_found_call fx2 fx5 m n :
+  forall path caps keys v params b, fst (find_node fx2 fx5 m n path caps) = FRes (Some (keys, v)) params b ->
+    exists k, In k (snd (find_node fx2 fx5 m n path caps)) /\ k_vid k = v /\ k_res k = MYes.
+Proof.
+  induction n as [p st w c vs ks bt IHs IHw IHc] using tree_ind'.
+  set (n := Node p st w c vs ks bt) in *.
+  intros path caps keys v params b. destruct path as [|first rest].
+  - change (find_node fx2 fx5 m n "" caps) with (here_part fx5 m n caps). unfold here_part.
+    destruct (is_nil (t_values n)); [discriminate|].
+    assert (P := try_values_found_call m (t_keys n) caps (t_values n)).
+    destruct (try_values m (t_keys n) caps (t_values n)) as [[[v0|]|] cs]; try discriminate.
+    cbn [fst snd]. intro H. inversion H; subst. apply P. reflexivity.
+  - rewrite find_node_cons.
+    assert (Hs : forall keys v params b, fst (static_part fx2 fx5 m n first rest caps) = FRes (Some (keys, v)) params b ->
+                 exists k, In k (snd (static_part fx2 fx5 m n first rest caps)) /\ k_vid k = v /\ k_res k = MYes).
+    { unfold static_part. destruct (find_static first (t_statics n)) as [child|] eqn:Ef; [|discriminate].
+      apply find_static_In in Ef. destruct (prefix (t_path child) (String first rest)); [|discriminate].
+      rewrite Forall_forall in IHs. apply (IHs _ Ef). }
+    destruct (static_part fx2 fx5 m n first rest caps) as [[|[x|] caps1 b1] cs1]; cbn [fst snd] in Hs |- *;
+      try discriminate.
+    + apply Hs.
+    + destruct b1; [|discriminate].
+      assert (Hw : forall keys v params b, fst (wild_part fx2 fx5 m n (String first rest) caps1) = Some (FRes (Some (keys, v)) params b) ->
+                   exists k, In k (snd (wild_part fx2 fx5 m n (String first rest) caps1)) /\ k_vid k = v /\ k_res k = MYes).
+      { unfold wild_part. destruct (t_wild n) as [ww|] eqn:Ew; [|discriminate].
+        destruct (Nat.eqb (next_sep (String first rest)) 0); [discriminate|].
+        assert (I := IHw ww Ew (sdrop (next_sep (String first rest)) (String first rest))
+                         (caps1 ++ [stake (next_sep (String first rest)) (String first rest)])).
+        destruct (find_node fx2 fx5 m ww _ _) as [[|[y|] cc bb] cs]; cbn [fst snd wild_res] in *; try discriminate.
+        - intros k0 v0 p0 b0 H. inversion H; subst. apply (I k0 v0 p0 b0). reflexivity.
+        - destruct bb; discriminate. }
+      destruct (wild_part fx2 fx5 m n (String first rest) caps1) as [[r|] cs2]; cbn [fst snd] in Hw |- *.
+      * intro E. subst r. destruct (Hw _ _ _ _ eq_refl) as (k & Hk & Hr). exists k. split; [apply in_or_app; auto | exact Hr].
+      * destruct (t_catch n) as [cc|] eqn:Ec; [|discriminate].
+        assert (Hc : forall keys v params b, fst (catch_part fx2 m n cc (String first rest) caps1) = FRes (Some (keys, v)) params b ->
+                     exists k, In k (snd (catch_part fx2 m n cc (String first rest) caps1)) /\ k_vid k = v /\ k_res k = MYes).
+        { unfold catch_part.
+          assert (P := try_values_found_call m (if fx2 then t_keys cc else t_keys n)
+                         (if fx2 then caps1 ++ [String first rest] else caps1) (t_values cc)).
+          destruct (try_values m _ _ (t_values cc)) as [[[v0|]|] cs]; try discriminate.
+          cbn [fst snd]. intros k0 v1 p0 b0 H. inversion H; subst. apply P. reflexivity. }
+        destruct (catch_part fx2 m n cc (String first rest) caps1) as [r cs3]. cbn [fst snd] in Hc |- *.
+        intro E. destruct (Hc _ _ _ _ E) as (k & Hk & Hr). exists k. split; [|exact Hr].
+        apply in_or_app. right. apply in_or_app. auto.
+Qed.
+
+(** the rule a lookup selects: one of its routes has an expression that matches the request path
+    as documented, that route's matcher was asked and said yes, and the captures are what Execute
+    makes of exactly the named segments *)
+Theorem lookup_selected : forall fx1 fx4 fx6 fx7 eng ds es t q r caps rej cs,
+  load true fx4 ds = Loaded es t ->
+  serve fx1 true true fx6 fx7 eng es t q = (ORule r caps rej, cs) ->
+  exists v s segs k, nth_error (flat_routes 0 ds) v = Some s /\ sr_rule s = r /\ sr_segs s q = Some segs /\
+    In k cs /\ k_vid k = v /\ k_res k = MYes /\
+    execute fx7 (rl_slash (sr_def s)) q (map_of (named_pairs (declared_names (sr_tokens s)) segs)) = (caps, rej).
+Proof.
+  intros fx1 fx4 fx6 fx7 eng ds es t q r caps rej cs Hload Hserve.
+  assert (Hcs : snd (serve fx1 true true fx6 fx7 eng es t q) = cs) by (rewrite Hserve; reflexivity).
+  rewrite serve_calls in Hcs.
+  set (m := matcher_of fx1 fx6 fx7 eng es q) in *.
+  destruct (find_node_good m t (lookup_path q) []) as [_ Hfound].
+  assert (Hcall := find_node_found_call true true m t (lookup_path q) []).
+  unfold serve, tree_find in Hserve. fold m in Hserve.
+  destruct (find_node true true m t (lookup_path q) []) as [[|[[keys v]|] params b] cs0]; cbn [fst snd] in *;
+    try discriminate.
+  destruct Hfound as (pi & node & vals & Hat & Hv & Hm & Hkeys & Hparams).
+  destruct (node_entry_strong fx4 ds es t q pi node vals v Hload Hat Hv Hm)
+    as (e & s & He & Hs & Hent & Hsegs & Hnames & Hlen).
+  simpl in Hparams. subst keys params cs0.
+  rewrite (params_of_named _ _ Hlen), He in Hserve.
+  destruct (execute fx7 (cm_slash (ce_m e)) q (map_of (named_pairs (t_keys node) vals))) as [caps0 rej0] eqn:Eex.
+  inversion Hserve; subst. clear Hserve.
+  destruct Hent as (cr & _ & _ & Hrule & _ & _ & Hslash).
+  destruct (Hcall _ _ _ _ eq_refl) as (k & Hk & Hkv & Hkr).
+  exists v, s, vals, k. repeat split; try assumption; [symmetry; exact Hrule|].
+  rewrite <- Hnames, <- Hslash. exact Eex.
+Qed.
+
+(* ------------------------------------------------------------------ the statement, end to end, for the tree as it is *)
+
+Lemma named_pairs_valid names segs :
+  Forall valid_enc segs -> Forall (fun kv => valid_enc (snd kv)) (named_pairs names segs).
+Proof.
+  revert segs. induction names as [|n nr IH]; intros [|v vr] H; simpl; try constructor.
+  inversion H; subst. destruct (String.eqb n "*"); [apply IH; assumption|].
+  constructor; [assumption | apply IH; assumption].
+Qed.
+
+Lemma decode_all_some keep pairs :
+  Forall (fun kv => valid_enc (snd kv)) pairs -> exists dec, decode_all keep pairs = Some dec.
+Proof.
+  induction pairs as [|[k v] r IH]; intro H; [exists []; reflexivity|].
+  inversion H as [|x y Hv Hr]; subst. simpl in Hv. destruct (IH Hr) as (dec & Hd).
+  apply (spec_decode_valid keep) in Hv. simpl. destruct (spec_decode keep v) as [d|]; [|congruence].
+  rewrite Hd. eexists. reflexivity.
+Qed.
+
+Lemma caps_guards_D8 sl pairs : caps_guard_F7 D8 sl pairs = false /\ caps_guard_F8 D8 sl pairs = false.
+Proof.
+  unfold caps_guard_F7, caps_guard_F8, guard_F7_val, guard_F7b, guard_F8_val. cbn [is7 is8 negb andb].
+  split; destruct (negb (slash_eqb sl SOn)); try reflexivity; cbn [andb].
+  - apply existsb_const_false.
+  - induction pairs as [|kv r IH]; [reflexivity|]. simpl. rewrite IH.
+    destruct (spec_decode true (snd kv)); reflexivity.
+Qed.
+
+(** THE STATEMENT, for the tree as it is now and every request view with a validly encoded
+    RawPath: if the lookup selects a rule, then one of its routes has an expression that matches the
+    request path, for that route scheme, method, host and every path_params expression hold as
+    documented, the request is refused exactly for an encoded slash under `off`, and otherwise the
+    values exposed are exactly the decoded segments under the wildcard names *)
+Theorem lookup_selected_now : forall eng ds es t q r caps rej cs,
+  load true true ds = Loaded es t ->
+  String.eqb (q_rawpath q) "" = false -> valid_enc (q_rawpath q) ->
+  serve true true true true D8 eng es t q = (ORule r caps rej, cs) ->
+  exists v s segs, nth_error (flat_routes 0 ds) v = Some s /\ sr_rule s = r /\ sr_segs s q = Some segs /\
+    spec_route_ok eng (sr_def s) (rt_params (sr_route s)) q (declared_names (sr_tokens s)) segs = true /\
+    rej = spec_rejected (rl_slash (sr_def s)) q /\
+    (rej = false -> exists sc, spec_captures (rl_slash (sr_def s)) (declared_names (sr_tokens s)) segs = Some sc /\ caps = sc).
+Proof.
+  intros eng ds es t q r caps rej cs Hload Hr Hvalid Hserve.
+  destruct (lookup_selected true true true D8 eng ds es t q r caps rej cs Hload Hserve)
+    as (v & s & segs & k & Hs & Hrule & Hsegs & Hk & Hkv & Hkr & Hex).
+  exists v, s, segs. repeat split; try assumption.
+  - assert (Hin : In k (snd (serve true true true true D8 eng es t q))) by (rewrite Hserve; exact Hk).
+    subst v. assert (Ha := lookup_answers_spec_now eng ds es t q Hload Hr Hvalid k Hin s segs Hs Hsegs).
+    rewrite Hkr in Ha. unfold spec_answer in Ha. destruct (spec_route_ok _ _ _ _ _ _); [reflexivity | discriminate].
+  - destruct (captures_exact D8 _ q _ _ _ _ eq_refl Hex) as [H1 _]. exact H1.
+  - intro Hrej. destruct (captures_exact D8 _ q _ _ _ _ eq_refl Hex) as [_ H2].
+    assert (Hlp : lookup_path q = q_rawpath q) by (unfold lookup_path; rewrite Hr; reflexivity).
+    assert (Hvs : Forall valid_enc segs).
+    { unfold sr_segs in Hsegs. rewrite Hlp in Hsegs.
+      apply (em_values valid_enc valid_enc_seg1 valid_enc_rest _ _ _ Hvalid Hsegs). }
+    destruct (decode_all_some (keep_slash_of (rl_slash (sr_def s))) _
+                (named_pairs_valid (declared_names (sr_tokens s)) segs Hvs)) as (dec & Hd).
+    exists (map_of dec). unfold spec_captures at 1. rewrite Hd. split; [reflexivity|].
+    destruct (caps_guards_D8 (rl_slash (sr_def s)) (named_pairs (declared_names (sr_tokens s)) segs)) as [G7 G8].
+    apply (H2 Hrej (map_of dec)); [|exact G7 | exact G8]. unfold spec_captures. rewrite Hd. reflexivity.
+Qed.
+
+(** unnamed wildcards are not exposed by a lookup *)
+Lemma map_put_In k v l x : In x (map_put k v l) -> x = (k, v) \/ In x l.
+Proof.
+  induction l as [|[k' v'] r IH]; simpl.
+  - intros [H|[]]. left. symmetry. exact H.
+  - destruct (String.eqb k k').
+    + intros [H|H]; [left; symmetry; exact H | right; right; exact H].
+    + destruct (String.leb k k').
+      * intros [H|H]; [left; symmetry; exact H | right; exact H].
+      * intros [H|H]; [right; left; exact H|]. destruct (IH H) as [H1|H1]; [left; exact H1 | right; right; exact H1].
+Qed.
+
+Lemma map_of_In l x : In x (map_of l) -> In x l.
+Proof.
+  unfold map_of. assert (G : forall l acc, In x (fold_left (fun acc kv => map_put (fst kv) (snd kv) acc) l acc) -> In x acc \/ In x l).
+  { clear l. induction l as [|[k v] r IH]; intro acc; simpl; [tauto|].
+    intro H. destruct (IH _ H) as [H1|H1]; [|tauto]. apply map_put_In in H1 as [->|H1]; tauto. }
+  intro H. destruct (G l [] H) as [[]|H1]. exact H1.
+Qed.
+
+Theorem lookup_unnamed_not_exposed : forall fx1 fx4 fx6 fx7 eng ds es t q r caps rej cs,
+  load true fx4 ds = Loaded es t ->
+  serve fx1 true true fx6 fx7 eng es t q = (ORule r caps rej, cs) ->
+  forall k v, In (k, v) caps -> k <> "*".
+Proof.
+  intros fx1 fx4 fx6 fx7 eng ds es t q r caps rej cs Hload Hserve k v Hin.
+  destruct (lookup_selected fx1 fx4 fx6 fx7 eng ds es t q r caps rej cs Hload Hserve)
+    as (v0 & s & segs & k0 & _ & _ & _ & _ & _ & _ & Hex).
+  assert (Hkeys : exists v', In (k, v') (named_pairs (declared_names (sr_tokens s)) segs)).
+  { unfold execute in Hex.
+    assert (G : forall f, In (k, v) (map (fun kv : string * string => (fst kv, f (snd kv))) (map_of (named_pairs (declared_names (sr_tokens s)) segs))) ->
+                          exists v', In (k, v') (named_pairs (declared_names (sr_tokens s)) segs)).
+    { intros f H. apply in_map_iff in H as ([k1 v1] & E & H1). inversion E; subst. exists v1. apply map_of_In. exact H1. }
+    destruct (rl_slash (sr_def s)).
+    - destruct (contains_enc_slash fx7 (q_rawpath q)); inversion Hex; subst.
+      + exists v. apply map_of_In. exact Hin.
+      + eapply G. exact Hin.
+    - inversion Hex; subst. eapply G. exact Hin.
+    - inversion Hex; subst. eapply G. exact Hin. }
+  destruct Hkeys as (v' & Hv'). exact (unnamed_not_exposed _ _ _ _ Hv').
+Qed.
